@@ -209,7 +209,7 @@ static void walk(cfg_t *cfg, int depth)
 		for (j = 0; j < sz; j++) {
 			switch (opt->type) {
 			case CFGT_INT: sink += cfg_opt_getnint(opt, j); break;
-			case CFGT_FLOAT: sink += (long)cfg_opt_getnfloat(opt, j); break;
+			case CFGT_FLOAT: sink += cfg_opt_getnfloat(opt, j) > 0.5; break;
 			case CFGT_BOOL: sink += cfg_opt_getnbool(opt, j); break;
 			case CFGT_STR: { const char *s = cfg_opt_getnstr(opt, j); if (s) sink += (long)strlen(s); break; }
 			case CFGT_PTR: { const char *s = cfg_opt_getnptr(opt, j); if (s) sink += (long)strlen(s); break; }
